@@ -170,3 +170,10 @@ Proof. vm_compute. reflexivity. Qed.
 Example C03_bad_parent_ids_still_safe :
   all_safe cfg0 w_badparent (view_of_model cfg0 w_badparent e0 (CUmount [] true) []) = true.
 Proof. vm_compute. reflexivity. Qed.
+(* with the build root "/" every host mount counts as the layer's for the property, none for
+   GetMountAndSubmounts: remove goes ahead *)
+Definition w_rootbld2 : wobs :=
+  MkWO (base_fs ++ [ (bs "/b/layers/a", Dir); (bs "/b/layers/a/layerconfig", File []); (bs "/", Dir)])
+       (MkKS [line "21" "1" "/mnt" "ext4" "/dev/sdb" rw] 40 5).
+Example C04_refuted_build_root_slash : c04 (mkcfg "../../..") w_rootbld2 (CRemove (bs "a") true) [] = false.
+Proof. vm_compute. reflexivity. Qed.
